@@ -8,7 +8,8 @@
  directions.  The wire never carries the plaintext of a protected cookie.
  ***************************************************************************)
 EXTENDS Naturals, Sequences, FiniteSets, TLC, Json
-CONSTANTS Names, Classes, KeyLens
+CONSTANTS Names, Classes, KeyLens     \* Classes: what the plaintext looks like -- "ascii", "binary", "empty", "long", "huge" (its ciphertext exceeds 4 KiB),
+                                      \* "issued" (the text is itself a ciphertext the server issued under the current key: still just a text)
 \* what a client can present under a name
 Kinds == {"absent", "own", "swapped", "flip", "truncate", "extend", "otherkey", "plaintext", "garbage", "empty"}
 VARIABLES stage, except, keylen, class, issued, present, view, wire,
